@@ -28,6 +28,20 @@ Theorem fromname_only_if : forall s off, FixedOffsetFromName s = Some off ->
 Proof. exact fromname_only_if_lemma. Qed.
 Print Assumptions fromname_only_if.
 
+From CCTZ Require Import Base Cal CivilImpl PosixImpl FixedImpl ZoneLoad ZoneImpl ZoneZ ZoneHist ZoneRefineDefs ZoneRefine.
+
+(* every built-in fixed-offset zone (|off| <= 24h, including exactly 24h)
+   satisfies the certificate, is not extended, and has the documented
+   abbreviation: with break_refines / make_refines this is "lookup reports
+   exactly that offset, no DST and the numeric abbreviation at EVERY instant,
+   without overflow" *)
+Theorem fixed_zone_ok : forall off, -86400 <= off <= 86400 ->
+  exists z, reset_to_builtin_utc off = OK z /\ zone_ok z = true /\ z_extended z = false /\
+    (forall t, zoff (abs_zone z) t = off) /\
+    (forall t, info_of z (zid (abs_zone z) t) = OK (false, fixed_abbr_spec off)).
+Proof. exact fixed_zone_ok_lemma. Qed.
+Print Assumptions fixed_zone_ok.
+
 Example c15_nonvacuous :
   FixedOffsetFromName (fixed_name_spec (-45296)) = Some (-45296) /\
   FixedOffsetToAbbr (-45296) = OK [45; 49; 50; 51; 52; 53; 54].
